@@ -1,6 +1,6 @@
 CONSTANTS
   Defects = {"class_ignored"}
-  Family = "errors"
+  Family = "errors_small"
   Deep = FALSE
 INIT Init
 NEXT Next
